@@ -44,6 +44,10 @@ func c20bGen(t *rapid.T) c20bCase {
 		c.Comments = rapid.Bool().Draw(t, "comments")
 		c.Invalid = rapid.Bool().Draw(t, "invalid")
 	}
+	if rapid.IntRange(0, 2).Draw(t, "cmdNullable") == 0 {
+		egAddCmdNullable(t, &c.G)
+		c.Comments = c.Space
+	}
 	if rapid.Bool().Draw(t, "marks") {
 		egAddMarks(t, &c.G)
 		// a marker behind a nullable last part matters where a node's end is trimmed back over
@@ -533,7 +537,7 @@ func c20bCheck(c c20bCase, res *batch.Result, run runFunc, r *ev.Recorder) *Fail
 func TestC20B(t *testing.T) {
 	p := &batchProp[c20bCase]{
 		ID:        "C20",
-		Rule:      "generated parsers: C02 grammars with eventBased+eventFields+eventAST, optional fileNode (input wrapped in `Root -> File`), tokenStream on/off, optimizeTables on/off; with a skipped space token fixWhitespace is on and optionally an injected comment token and an injected invalid_token; optional recovery alternatives; in half of the grammars a third of the alternatives carry a state marker, mostly at the end of the rule. 30 sentences with generated separators/comments and 2 mutated variants each (token deleted/inserted/replaced, unmatched character, trailing tokens) are parsed through a listener that records events and feeds the generated builder; the events are checked as for the shipped parsers, the tree with the same validity predicate, and the generated ast.Parse must give the same tree. In addition 40 random well-nested event streams per grammar (forest of depth <= 4 over <= 24 positions, with empty nodes and shared boundaries; post-order or an arbitrary child-before-parent order) are fed to the builder directly. Non-trivial: a grammar for which a tree of depth >= 2 was checked.",
+		Rule:      "generated parsers: C02 grammars with eventBased+eventFields+eventAST, optional fileNode (input wrapped in `Root -> File`), tokenStream on/off, optimizeTables on/off; with a skipped space token fixWhitespace is on and optionally an injected comment token and an injected invalid_token; optional recovery alternatives; in half of the grammars a third of the alternatives carry a state marker, mostly at the end of the rule; in a third, nonterminals that end a rule get an action-only alternative. 30 sentences with generated separators/comments and 2 mutated variants each (token deleted/inserted/replaced, unmatched character, trailing tokens) are parsed through a listener that records events and feeds the generated builder; the events are checked as for the shipped parsers, the tree with the same validity predicate, and the generated ast.Parse must give the same tree. In addition 40 random well-nested event streams per grammar (forest of depth <= 4 over <= 24 positions, with empty nodes and shared boundaries; post-order or an arbitrary child-before-parent order) are fed to the builder directly. Non-trivial: a grammar for which a tree of depth >= 2 was checked.",
 		Assume:    []string{"without fileNode the builder documents 'exactly one root node is expected'; that error is counted, not reported"},
 		Quick:     64, Thorough: 640, BatchSize: 32,
 		Gen:       c20bGen,
